@@ -9,7 +9,9 @@ wt = f'/tmp/wt/{pid}' if rnd == '1' else f'/tmp/wt{rnd}/{pid}'
 out = f'/tmp/seedout/{pid}' if rnd == '1' else f'/tmp/seedout{rnd}/{pid}'
 EXTRA = '' if rnd == '1' else '''
 
-IMPORTANT - make them HARD TO FIND: assume a reviewer already exercises every clause of the property with straightforward randomised tests on freshly built objects with the common option values, and would catch any change whose effect shows up in a single ordinary call. Prefer changes whose effect depends on (a) the earlier HISTORY of the same object (previous solves or failures of the same period, copies, reindexing, variables added later, strict toggled, lags/leads changed at run time, a previous call that raised), (b) rarely combined options or boundary values (for example tol=0, min_iter == max_iter, negative positions together with offsets, empty check lists, zero-length or length-one spans, labels that are falsy or compare equal across types), (c) process-global or class-level state (the warnings filter stack, the numpy error state, class attributes shared by instances, mutable default arguments, caches), (d) particular span / label / dtype kinds (NumPy arrays, pandas PeriodIndex or DatetimeIndex, tuples as labels, string and boolean dtypes), or (e) the interplay of two modules or two call sites that each look fine alone. Do not reuse the most obvious one-line edits (flipping a comparison, an off-by-one in a range, dropping an argument).'''
+IMPORTANT - make them HARD TO FIND: assume a reviewer already exercises every clause of the property with straightforward randomised tests on freshly built objects with the common option values, and would catch any change whose effect shows up in a single ordinary call. Prefer changes whose effect depends on (a) the earlier HISTORY of the same object (previous solves or failures of the same period, copies, reindexing, variables added later, strict toggled, lags/leads changed at run time, a previous call that raised), (b) rarely combined options or boundary values (for example tol=0, min_iter == max_iter, negative positions together with offsets, empty check lists, zero-length or length-one spans, labels that are falsy or compare equal across types), (c) process-global or class-level state (the warnings filter stack, the numpy error state, class attributes shared by instances, mutable default arguments, caches), (d) particular span / label / dtype kinds (NumPy arrays, pandas PeriodIndex or DatetimeIndex, tuples as labels, string and boolean dtypes), or (e) the interplay of two modules or two call sites that each look fine alone. Do not reuse the most obvious one-line edits (flipping a comparison, an off-by-one in a range, dropping an argument).''' + ('' if rnd != '3' else '''
+
+Earlier seeders have ALREADY used the following ideas, so find something DIFFERENT: caches (of label positions, slices, check arrays, feasibility bounds, alias maps, span length) that go stale across copy()/reindex()/add_variable(); changing or leaking the NumPy error state or the warnings filters; storing a caller's array without copying; class-level attributes shared between instances or inherited by subclasses; treating falsy labels / fill values as absent; moving an argument check before/after the offset copy; resetting status/iterations too early; shallow copies of object arrays; mutable default arguments; narrowing which warning categories are errors; NaN comparisons that flip a convergence test. Think instead about: interactions with pandas / NumPy semantics (dtype promotion, views vs copies from slicing, object-dtype arrays, zero-length arrays, non-contiguous arrays, datetime resolution, duplicate or unsorted index labels), Python semantics (operator precedence in rewritten conditions, truthiness of arrays and of numpy scalars, int vs numpy integer, dict ordering, exception chaining and `finally`, keyword arguments swallowed by **kwargs, method resolution order with several mixins), bookkeeping that is only wrong on the SECOND of two consecutive faults or calls, behaviour that differs between solve / solve_period / solve_t entry points, and behaviour that differs only for linkers nested in linkers or models with zero endogenous variables.''')
 prop = None
 for line in open('/verif/properties.jsonl'):
     p = json.loads(line)
